@@ -201,7 +201,12 @@ def one(case, acc):
                 # a True after an explicit refusal without anything prompt-like, or from a server that is silent
                 # AND does not echo, is something else
                 mech = 'true-without-shell-prompt'
-                if not o['auto_prompt_reset']:
+                # (the recorded finding is about a synchronisation step that is satisfied too easily; a login()
+                # that was asked to synchronise and never sent its probing empty lines is a different matter)
+                empties = sum(1 for _, d0 in sends if d0 in ('\n', b'\n'))
+                if not o['auto_prompt_reset'] and o.get('sync_original_prompt', True) and empties < 3:
+                    mech += '-and-without-synchronising'
+                elif not o['auto_prompt_reset']:
                     if promptlike or not (refused or muted):
                         mech += '-reset-disabled'
                     elif refused:
